@@ -204,7 +204,7 @@ fn run_writer_sync(w: &mut Tape, env: &EnvRef) -> RunResult {
     check_writer_output(&sink.data, &wl, "writer-sync")
 }
 
-fn rt_handle() -> &'static tokio::runtime::Runtime {
+pub(crate) fn rt_handle() -> &'static tokio::runtime::Runtime {
     use std::sync::OnceLock;
     static RT: OnceLock<tokio::runtime::Runtime> = OnceLock::new();
     RT.get_or_init(|| {
